@@ -79,10 +79,10 @@ func (v *VerifSupervisor) CommitSelected() bool { return v.s.CommitSelected() }
 func (v *VerifSupervisor) CommitSelectLost() bool { return v.s.CommitSelectLost() }
 
 // InjectDisconnect queues what TCPDown queues.
-func (v *VerifSupervisor) InjectDisconnect() { v.s.inject(evDisconnect) }
+func (v *VerifSupervisor) InjectDisconnect() { v.s.injectTagged(evDisconnect) }
 
 // InjectT7 queues what T7Expired queues.
-func (v *VerifSupervisor) InjectT7() { v.s.inject(evT7Timeout) }
+func (v *VerifSupervisor) InjectT7() { v.s.injectTagged(evT7Timeout) }
 
 // RequestClose queues what Close queues (no epoch pinned).
 func (v *VerifSupervisor) RequestClose() { v.s.requestClose(nil) }
@@ -99,7 +99,7 @@ func (v *VerifSupervisor) Pending() []VerifEvent {
 	out := make([]VerifEvent, 0, n)
 	for i := 0; i < n; i++ {
 		ev := <-v.s.events
-		out = append(out, VerifEvent(ev))
+		out = append(out, VerifEvent(ev&evKindMask))
 		v.s.events <- ev
 	}
 
@@ -117,7 +117,7 @@ func (v *VerifSupervisor) StepOne(interpose func()) (ev VerifEvent, ok bool) {
 		v.s.step(e)
 		v.s.testHookAfterStateLoad = nil
 
-		return VerifEvent(e), true
+		return VerifEvent(e & evKindMask), true
 	default:
 		return 0, false
 	}
